@@ -16,11 +16,19 @@
 (*           it is always recorded, it is only USED when SharedTokens)     *)
 (*   caller  the caller's list objects as the caller sees them afterwards  *)
 (*   tgt     the document the last step operated on (0: none)              *)
+(*   pending objects of a run that an ABORTED parse had collected but not  *)
+(*           yet turned into an element (what a run buffer that outlives   *)
+(*           the call would still hold); only USED when LeftoverRunBuffer  *)
 (*                                                                         *)
 (* Actions: Parse(inp) builds a new document (fresh objects; with          *)
 (* SharedTokens = TRUE the object cached for an equal line is reused),     *)
 (* CallerMutates(d, i) edits object i of document d in place,              *)
-(* CallerRemoves(d, i) removes it from document d (structural edit).       *)
+(* CallerRemoves(d, i) removes it from document d (structural edit),       *)
+(* ParseFails(inp) is a parse that consumes the k lines of inp and then    *)
+(* raises (the input iterable raises, a bytes line does not decode, the    *)
+(* line sequence is outside the domain): it returns no document; the       *)
+(* property quantifies over every valid input regardless of such earlier   *)
+(* calls.                                                                  *)
 (* Checked: UnmodifiedLossless (every document the caller did not touch    *)
 (* still dumps to its input), Isolation (a step changes the dump of no     *)
 (* document other than its target; Parse changes none), InputUntouched     *)
@@ -29,9 +37,13 @@
 (* parser through the behaviours                                           *)
 (*   Parse(P), Parse(C)                      dump(P) re-verified           *)
 (*   Parse(A), Parse(B), CallerMutates(A..), Parse(A), CallerMutates(B..)  *)
+(*   ParseFails(k lines, then: generator raises | undecodable bytes |      *)
+(*              unterminated non-final line), Parse(C)                     *)
 (* and compares exactly these three observables.                           *)
-(* Spec-level negative control (tried; re-run by c01.py):                  *)
-(*   SharedTokens = TRUE -> UnmodifiedLossless violated                    *)
+(* Spec-level negative controls (tried; re-run by c01.py):                 *)
+(*   SharedTokens = TRUE      -> UnmodifiedLossless violated               *)
+(*   LeftoverRunBuffer = TRUE -> UnmodifiedLossless violated (the objects  *)
+(*        an aborted parse left behind are prepended to the next document) *)
 (***************************************************************************)
 EXTENDS Naturals, Sequences, FiniteSets, TLC
 
@@ -39,10 +51,12 @@ CONSTANTS LineIds,        \* distinct line texts
           MaxLen,         \* longest input
           MaxDocs,        \* live documents
           MaxEdits,       \* caller edits per behaviour (keeps the configuration small)
-          SharedTokens    \* negative control: objects are cached per line text and reused
+          SharedTokens,   \* negative control: objects are cached per line text and reused
+          LeftoverRunBuffer, \* negative control: the run buffer of an aborted parse survives the call
+          MaxFails        \* aborted parses per behaviour
 
-VARIABLES docs, store, memo, caller, tgt, edits
-vars == <<docs, store, memo, caller, tgt, edits>>
+VARIABLES docs, store, memo, caller, tgt, edits, pending, fails
+vars == <<docs, store, memo, caller, tgt, edits, pending, fails>>
 
 Edited == 0
 ASSUME Edited \notin LineIds
@@ -64,32 +78,43 @@ Alloc(inp, i, acc) ==
 
 DumpOf(d, st) == [i \in 1..Len(d.cells) |-> st[d.cells[i]]]
 
-Init == docs = <<>> /\ store = <<>> /\ memo = <<>> /\ caller = <<>> /\ tgt = 0 /\ edits = 0
+Init == docs = <<>> /\ store = <<>> /\ memo = <<>> /\ caller = <<>> /\ tgt = 0 /\ edits = 0 /\ pending = <<>> /\ fails = 0
 
 Parse(inp) ==
    /\ Len(docs) < MaxDocs
    /\ LET r == Alloc(inp, 1, [cells |-> <<>>, store |-> store, memo |-> memo])
-      IN /\ docs' = Append(docs, [input |-> inp, cells |-> r.cells, edited |-> FALSE])
+      IN /\ docs' = Append(docs, [input |-> inp, edited |-> FALSE,
+                                  cells |-> (IF LeftoverRunBuffer THEN pending ELSE <<>>) \o r.cells])
          /\ store' = r.store
          /\ memo' = r.memo
    /\ caller' = Append(caller, inp)          \* the parser leaves the caller's list alone
    /\ tgt' = 0 /\ edits' = edits
+   /\ pending' = <<>> /\ fails' = fails
+
+\* an aborted parse: objects were created for the lines read so far, no document is returned
+ParseFails(inp) ==
+   /\ fails < MaxFails /\ fails' = fails + 1
+   /\ LET r == Alloc(inp, 1, [cells |-> <<>>, store |-> store, memo |-> memo])
+      IN /\ store' = r.store /\ memo' = r.memo
+         /\ pending' = r.cells
+   /\ tgt' = 0
+   /\ UNCHANGED <<docs, caller, edits>>
 
 CallerMutates(d, i) ==
    /\ edits < MaxEdits /\ edits' = edits + 1
    /\ store' = [store EXCEPT ![docs[d].cells[i]] = Edited]
    /\ docs' = [docs EXCEPT ![d].edited = TRUE]
    /\ tgt' = d
-   /\ UNCHANGED <<memo, caller>>
+   /\ UNCHANGED <<memo, caller, pending, fails>>
 
 CallerRemoves(d, i) ==
    /\ edits < MaxEdits /\ edits' = edits + 1
    /\ docs' = [docs EXCEPT ![d].edited = TRUE,
                            ![d].cells = SubSeq(@, 1, i - 1) \o SubSeq(@, i + 1, Len(@))]
    /\ tgt' = d
-   /\ UNCHANGED <<store, memo, caller>>
+   /\ UNCHANGED <<store, memo, caller, pending, fails>>
 
-Next == \/ \E inp \in Inputs : Parse(inp)
+Next == \/ \E inp \in Inputs : Parse(inp) \/ ParseFails(inp)
         \/ \E d \in 1..Len(docs) : \E i \in 1..Len(docs[d].cells) : CallerMutates(d, i) \/ CallerRemoves(d, i)
 Spec == Init /\ [][Next]_vars
 
